@@ -1,5 +1,6 @@
 #!/bin/bash
 # usage: seedbatch.sh <par> <seed:check>...   runs seedrun for each pair, <par> at a time; appends to /verif/seeded/results.tsv
 PAR=$1; shift
+HERE=$(cd "$(dirname "$0")/.." && pwd)
 mkdir -p /tmp/seedout
-printf '%s\n' "$@" | xargs -P "$PAR" -I{} bash -c 's={}; seed=${s%%:*}; chk=${s##*:}; out=$(VERIF_PAR='$((16/PAR))' /verif/tools/seedrun.sh /verif/seeded/$seed $chk quick 2>&1 | tail -1); echo -e "$seed\t$chk\t$out" >> /verif/seeded/results.tsv'
+printf '%s\n' "$@" | xargs -P "$PAR" -I{} bash -c 's={}; seed=${s%%:*}; chk=${s##*:}; out=$(VERIF_PAR='$((16/PAR))' '$HERE'/tools/seedrun.sh '$HERE'/seeded/$seed $chk quick 2>&1 | tail -1); echo -e "$seed\t$chk\t$out" >> '$HERE'/seeded/results.tsv'
